@@ -295,6 +295,9 @@ func c02Request(sp *spec.Spec, ex *rt.Exchange) *Verdict {
 	if ex.StubIn == nil {
 		class, text := describeErr(ex)
 		v.add(mkKey("rejected:"+notDeliveredName(ex), "valid-payload-not-delivered:"+class, "", Explain(sp, m, ex.Case.Sent)), "valid payload %s did not reach the service method: %s", vtree.Show(ex.Case.Sent), text)
+		if isMultipart(m) && ex.Case.Raw == nil && ex.WireReq != nil {
+			multipartWire(ex.WireReq, v) // name what is wrong with the multipart framing the generated client produced (multipart.go)
+		}
 		return v
 	}
 	if ex.StubCalls != 1 {
@@ -313,7 +316,11 @@ func c02Request(sp *spec.Spec, ex *rt.Exchange) *Verdict {
 		RequestPlacement(sp, sv, m, ex, v)
 	}
 	locOf := func(a string) valgen.Loc { return cases.LocOf(m.HTTP, a) }
-	want := rt.NormKeys(Expect(sp, m.Payload.Type, ex.Case.Sent, locOf, nil, 0))
+	exp := Expect(sp, m.Payload.Type, ex.Case.Sent, locOf, nil, 0)
+	if isMultipart(m) {
+		exp = multipartExpect(sp, m, ex.Case.Sent, exp) // body attributes arrive as the lab's codec delivers them (multipart.go)
+	}
+	want := rt.NormKeys(exp)
 	got := ex.StubIn.Payload
 	prt, _ := sp.Resolve(m.Payload.Type)
 	if prt == nil {
